@@ -214,5 +214,3 @@ func calleeFull(c *ssa.CallCommon) string {
 	}
 	return ""
 }
-
-
